@@ -47,7 +47,7 @@ WORKERS = {"quick": 16, "thorough": 16}
 WATCHDOG = {"quick": 600, "thorough": 3000}
 
 KINDS = ["select", "select", "setop", "insert", "update", "delete", "create", "drop"]
-SPECIAL_KINDS = {"update-join", "for-update-of", "update-from", "dialect-sensitive-constants", "dialect-sensitive-set", "sign-twins", "mutable-builder", "mutable-builder-setop", "unnamed-source-by-replace", "long-names", "aliased-insert-target"}
+SPECIAL_KINDS = {"update-join", "for-update-of", "update-from", "dialect-sensitive-constants", "dialect-sensitive-set", "sign-twins", "mutable-builder", "mutable-builder-setop", "unnamed-source-by-replace", "long-names", "aliased-insert-target", "cte-name-crosstalk"}
 
 
 def special_programs(d):
@@ -77,6 +77,20 @@ def special_programs(d):
     q = p.call(p.call(p.call(Cls(d), "from_", t1), "select", p.call(t1, "field", "id")), "where", p.bin("==", p.call(t1, "field", "name"), "x"))
     q = p.call(q, "where", p.bin(">", acc, 5))
     out.append((p.prog(dialect=d, kind="too-deep-to-render"), q.i))
+    # two statements whose CTEs have set-operation bodies; the second reads a table named like the first one's CTE: what one render
+    # learns must not show in the other
+    p = P()
+    tx, ty = p.new("Table", "tx"), p.new("Table", "ty")
+    body1 = p.call(p.call(p.call(Cls(d), "from_", tx), "select", p.call(tx, "field", "id")), "union", p.call(p.call(Cls(d), "from_", ty), "select", p.call(ty, "field", "id")))
+    s1 = p.call(p.call(p.call(Cls(d), "with_", body1, "n1"), "from_", p.new("AliasedQuery", "n1")), "select", "id")
+    tn = p.new("Table", "n1")
+    body2 = p.call(p.call(p.call(Cls(d), "from_", tn), "select", p.call(tn, "field", "id")), "union_all",
+                   p.call(p.call(p.call(p.call(Cls(d), "from_", tn), "join", p.new("AliasedQuery", "r1")), "on", p.bin("==", p.call(tn, "field", "id"), p.call(p.new("AliasedQuery", "r1"), "field", "id"))), "select", p.call(tn, "field", "id")))
+    s2 = p.call(p.call(p.call(Cls(d), "with_", body2, "r1"), "from_", p.new("AliasedQuery", "r1")), "select", "id")
+    body3 = p.call(p.call(p.call(Cls(d), "from_", p.new("AliasedQuery", "n1")), "select", "id"), "union", p.call(p.call(Cls(d), "from_", ty), "select", p.call(ty, "field", "id")))
+    s3 = p.call(p.call(p.call(p.call(Cls(d), "with_", body1, "n1"), "with_", body3, "n2"), "from_", p.new("AliasedQuery", "n2")), "select", "id")
+    out.append((p.prog(dialect=d, kind="cte-name-crosstalk"), s1.i))
+    out.append((p.prog(dialect=d, kind="cte-name-crosstalk"), s3.i))
     # an aliased INSERT target with a column list, a conflict target and assignments (every clause that writes bare column names)
     p = P()
     ta = p.new("Table", "accounts", alias="a")
